@@ -108,6 +108,45 @@ def shared_proton(htext):
     return "\n".join(lines) + "\n"
 
 
+def near_tie(htext):
+    """A supplied hydrogen on a nitrogen and the two oxygens of a carboxylate of another residue, both within 3.7 A of it:
+    the farther oxygen is moved (radially, to a point of the 0.001 A grid) so that the two squared H...O distances differ by
+    less than 0.0008 A^2 but are not equal - a bifurcated hydrogen bond. None if the structure offers no such triple."""
+    lines = htext.splitlines()
+    atoms = [(i, pdbio.parse_line(ln), ln) for i, ln in enumerate(lines) if C.is_atom(ln)]
+    heavy = [a for a in atoms if a[2][76:78].strip() != "H"]
+    d2 = lambda p, q: (p.x - q.x) ** 2 + (p.y - q.y) ** 2 + (p.z - q.z) ** 2  # noqa
+    for i, h, ln in atoms:
+        if ln[76:78].strip() != "H":
+            continue
+        par = min(heavy, key=lambda a: d2(a[1], h))
+        if par[2][76:78].strip() != "N":
+            continue
+        for nm1, nm2 in (("OD1", "OD2"), ("OE1", "OE2")):
+            for a in heavy:
+                if a[2][12:16].strip() != nm1 or C.resid(a[2]) == C.resid(par[2]):
+                    continue
+                b = [x for x in heavy if x[2][12:16].strip() == nm2 and C.resid(x[2]) == C.resid(a[2])]
+                if not b or max(d2(a[1], h), d2(b[0][1], h)) > 3700 ** 2:
+                    continue
+                near, far = (a, b[0]) if d2(a[1], h) <= d2(b[0][1], h) else (b[0], a)
+                r1 = d2(near[1], h)
+                f = (r1 ** 0.5) / (d2(far[1], h) ** 0.5)
+                tx, ty, tz = (h.x + (far[1].x - h.x) * f, h.y + (far[1].y - h.y) * f, h.z + (far[1].z - h.z) * f)
+                best = None
+                for dx in range(-12, 13):
+                    for dy in range(-12, 13):
+                        for dz in range(-12, 13):
+                            x, y, z = int(round(tx)) + dx, int(round(ty)) + dy, int(round(tz)) + dz
+                            diff = (x - h.x) ** 2 + (y - h.y) ** 2 + (z - h.z) ** 2 - r1
+                            if 0 < diff < 800 and (best is None or dx * dx + dy * dy + dz * dz < best[0]):
+                                best = (dx * dx + dy * dy + dz * dz, x, y, z)
+                if best:
+                    lines[far[0]] = pdbio.set_xyz(lines[far[0]], best[1], best[2], best[3])
+                    return "\n".join(lines) + "\n"
+    return None
+
+
 def structures(ctx):
     prot = [("1HPX-protein", protein_only(C.test_pdb_text("1HPX"))), ("frag-3SGB-E0+40", C.fragment("3SGB", "E", 0, 40))]
     # incomplete residues: side chains modelled up to the defining atom only (fallback code paths use the group centre)
@@ -294,6 +333,15 @@ def run(ctx):
             sp_ = shared_proton(hs_) if hs_ else None
             if sp_:
                 prot_b.append((n_ + "+shared-proton", t_, sp_))
+            nt_ = near_tie(hs_) if hs_ else None
+            if nt_:
+                prot_b.append((n_ + "+bifurcated-hydrogen-bond", t_, nt_))
+    if ctx.thorough():
+        f45 = C.join(C.chain_lines("1HPX", "A", 0, 45) + [C.TER])
+        h45 = c07.with_own_hydrogens(f45)
+        n45 = near_tie(h45) if h45 else None
+        if n45:
+            prot_b.append(("frag-1HPX-A0+45+bifurcated-hydrogen-bond", f45, n45))
     for si, (name, text, given) in enumerate(prot_b):
         htext = given or c07.with_own_hydrogens(text)
         if not htext or knife_edge(htext):
